@@ -1477,6 +1477,46 @@ fn corpus_identify() -> Vec<Item> {
     ]
 }
 
+
+/// Record lifetimes through the library's own encoder and decoder: the wire TTL is 32 bits of seconds, so a lifetime
+/// survives as min(lifetime, u32::MAX) (within a few seconds of clock reading), for `PUT_VALUE` and `GET_VALUE` responses.
+fn record_lifetime_roundtrips() -> (u64, Vec<(String, String, Value)>) {
+    let mut bad = Vec::new();
+    let mut n = 0u64;
+    let lifetimes: [u64; 12] = [1, 2, 59, 3600, (u32::MAX as u64) - 1, u32::MAX as u64, 1 << 32, (1 << 32) + 1, (1 << 32) + 3600, (1 << 33) + 7, 1 << 36, 1 << 40];
+    for secs in lifetimes {
+        for kind in ["put_value", "get_value_response"] {
+            n += 1;
+            let before = Instant::now();
+            let record = Record { key: RecordKey::from(key_of(32)), value: value_of(10), publisher: None, expires: Some(before + Duration::from_secs(secs)) };
+            let bytes = match kind {
+                "put_value" => KademliaMessage::put_value(record).to_vec(),
+                _ => KademliaMessage::get_value_response(RecordKey::from(key_of(32)), vec![], Some(record)).to_vec(),
+            };
+            let decoded = guard(|| KademliaMessage::from_bytes(BytesMut::from(bytes.as_slice()), 20));
+            let got = match decoded {
+                Ok(Some(KademliaMessage::PutValue { record })) => record.expires,
+                Ok(Some(KademliaMessage::GetRecord { record: Some(record), .. })) => record.expires,
+                other => {
+                    bad.push((format!("roundtrip/kademlia/record-lifetime/{kind}/not-decoded"), format!("{kind} with a record living {secs} s did not decode to a record: {:?}", other.map(|m| m.map(|_| "other message"))), json!({"kind": "record-lifetime", "message": kind, "secs": secs})));
+                    continue;
+                }
+            };
+            let want = secs.min(u32::MAX as u64);
+            let left = got.map(|e| e.saturating_duration_since(before).as_secs());
+            let ok = matches!(left, Some(l) if l + 5 >= want && l <= want + 5);
+            if !ok {
+                bad.push((
+                    format!("roundtrip/kademlia/record-lifetime/{kind}"),
+                    format!("{kind}: a record encoded with {secs} s to live decoded with {left:?} s to live, expected about {want} s"),
+                    json!({"kind": "record-lifetime", "message": kind, "secs": secs}),
+                ));
+            }
+        }
+    }
+    (n, bad)
+}
+
 // ------------------------------------------------------------------------------------------------
 // round trips of the library's own encoders
 // ------------------------------------------------------------------------------------------------
@@ -2321,6 +2361,17 @@ pub fn run(ctx: &mut Ctx) {
         "roundtrip",
         json!({"values_checked": rt.checked, "failures": rt.failures.len(), "wire_format_exceptions_observed": rt.exceptions}),
     );
+    {
+        let (n, bad) = record_lifetime_roundtrips();
+        let mut seen = std::collections::BTreeSet::new();
+        for (sig, what, replay) in bad {
+            if seen.insert(sig.clone()) {
+                ctx.violation(Violation { signature: sig, what, replay });
+            }
+        }
+        ctx.cov_add("evaluations", n);
+        ctx.sub("record_lifetime_roundtrips", json!({"cases": n}));
+    }
 
     let targets = Arc::new(build_targets(tier, &runs, &kadc));
     let jobs = Arc::new(build_jobs(&targets, tier));
